@@ -30,7 +30,8 @@ import traceback
 VERIF = os.path.dirname(os.path.dirname(os.path.abspath(__file__)))
 LEAN = os.path.join(VERIF, "lean")
 REPO = os.environ.get("SIGPY_REPO", "/repo")
-DRIVER = os.path.join(LEAN, ".lake", "build", "bin", "sigpy_driver")
+def driver_path(prop):
+    return os.path.join(LEAN, ".lake", "build", "bin", "drv_" + prop.lower())
 ALLOWED_AXIOMS = {"propext", "Classical.choice", "Quot.sound"}
 FORBIDDEN = re.compile(
     r"\b(sorry|admit|native_decide|bv_decide|implemented_by|unsafe)\b|^\s*axiom\s|maxHeartbeats\s+0\b"
@@ -176,8 +177,10 @@ class Ctx:
             log("  lake build %s -> rc=%d (%.1fs)" % (" ".join(targets), rc, time.time() - t))
         return rc == 0, out
 
-    def build_and_audit(self, modules, theorems, extra_targets=("sigpy_driver",)):
+    def build_and_audit(self, modules, theorems, extra_targets=None):
         """modules: Lean module names holding the property theorems; theorems: fully qualified names."""
+        if extra_targets is None:
+            extra_targets = ("drv_" + self.prop.lower(),)
         ok, out = self.lake_build(list(modules) + list(extra_targets))
         errs = _lake_errors(out)
         self.build_log = out
@@ -262,10 +265,12 @@ class Ctx:
             rc, out = sh(cmd, cwd=LEAN, timeout=3000)
         self.oblige("leanchecker:" + ",".join(modules), "audit", rc == 0, out[-800:])
 
-    def driver(self, lines):
-        """run protocol lines through the compiled Lean driver; returns list of reply lines."""
+    def driver(self, lines, prop=None):
+        """run protocol lines through the compiled Lean driver of this property (or of `prop`);
+        returns the list of reply lines."""
         if not lines:
             return []
+        DRIVER = driver_path(prop or self.prop)
         if not os.path.exists(DRIVER):
             return ["err no-driver"] * len(lines)
         data = "\n".join(lines) + "\n"
@@ -421,6 +426,14 @@ def _write_replay(ctx, body):
 def run_property(mod, prop, tier, seed):
     ctx = Ctx(prop, tier, seed)
     try:
+        # bring every generated file up to date with the current source first (a previous run may
+        # have left definitions generated from a different tree); failures here are only recorded
+        # by the properties that declare the file in their own translate()
+        try:
+            from harness.translate import gen as _G
+            _G.regenerate(None, list(_G.GENERATORS))
+        except Exception:
+            pass
         if hasattr(mod, "translate"):
             try:
                 mod.translate(ctx)
